@@ -5,7 +5,11 @@
 (* the backend under test and compares with the real output (C03/C07/C13).    *)
 EXTENDS Construct, TLC, Json
 
-CONSTANTS MsgLens, FooterLens, AadLens, V1SecretLens
+CONSTANTS MsgLens, FooterLens, AadLens, V1SecretLens,
+          BigTuples      \* extra (message, footer, assertion) length triples around the buffer sizes a streaming writer might use
+
+BigQuick == {<<1023, 0, 0>>, <<1024, 0, 0>>, <<1025, 9, 7>>, <<4096, 0, 0>>, <<17, 1024, 0>>, <<17, 128, 129>>, <<0, 4097, 0>>, <<33, 60, 1100>>, <<512, 513, 0>>}
+BigThorough == BigQuick \cup {<<2048, 2049, 0>>, <<8192, 0, 0>>, <<16, 256, 255>>, <<255, 255, 255>>, <<65, 511, 64>>, <<1, 8192, 1>>}
 
 VARIABLE c      \* the case descriptor being printed
 Init == c = <<"start">>
@@ -17,6 +21,9 @@ Next ==
   /\ \/ \E ver \in 1..4, ml \in MsgLens, fl \in FooterLens, al \in AadLens :
            /\ (al > 0 => ver \in {3, 4})
            /\ c' = <<"local", ver, ml, fl, al>> \/ c' = <<"public", ver, ml, fl, al>>
+     \/ \E ver \in 1..4, t \in BigTuples :
+           /\ (t[3] > 0 => ver \in {3, 4})
+           /\ c' = <<"local", ver, t[1], t[2], t[3]>> \/ c' = <<"public", ver, t[1], t[2], t[3]>>
      \/ \E ver \in 1..4, kt \in {"local", "secret"} :
            \E kl \in (IF kt = "secret" /\ ver = 1 THEN V1SecretLens ELSE {KeyLen(ver, kt)}) :
               \/ c' = <<"pie", ver, kt, kl>>
